@@ -147,6 +147,7 @@ MUTATORS = {
         ("drop rehearse", r"quimb/tensor/(tnag/core|tn1d/core|tn2d/core|tn3d/core)\.py$", r"^(\s+)rehearse=rehearse,\s*$", None),
     ],
     "C14": [
+        ("converged without comparing a change", r"quimb/tensor/belief_propagation/bp_common\.py$", r"^(\s+)self\.converged \|= max_mdiff < tol_abs\s*$", r"\1self.converged |= not self.touched", r"^run$"),
         ("marginal output chosen by danglingness, not by the query", r"quimb/tensor/belief_propagation/d2bp\.py$", r"^(\s+)if jx == ind:\s*$", r"\1if jx in self.output_inds:", r"^compute_marginal$"),
         ("pair normalised by magnitude only", r"quimb/tensor/belief_propagation/bp_common\.py$", r"^(\s+)return mi / \(sij \* nij \* nii / njj\), mj / \(nij \* njj / nii\)\s*$", r"\1return mi / (nij * nii / njj), mj / (nij * njj / nii)"),
         ("loop expansion without single tensor regions", r"quimb/tensor/belief_propagation/(hd1bp|d1bp|d2bp)\.py$", r"^(\s+)itertools\.chain\(gloops, \(\(tid,\) for tid in self\.tn\.tensor_map\)\)(,?)\s*$", r"\1gloops\2"),
